@@ -334,4 +334,98 @@ fn state_machine_transition(
 #[allow(unused_imports, dead_code, missing_docs)]
 pub mod verif_hooks {
     use super::*;
+    use alloc::vec;
+    use alloc::vec::Vec;
+    use crate::hb::ot_layout_gpos_table::verif_hooks::{mk_pos, rd_pos, P};
+    use crate::Direction;
+
+    /// (glyph id, mask, glyph_props, unicode_props)
+    pub type I = (u32, u32, u16, u16);
+
+    fn mk_buffer(infos: &[I], pos: &[P], len: usize, direction: Direction) -> hb_buffer_t {
+        let mut b = hb_buffer_t::new();
+        b.direction = direction;
+        b.pos = pos.iter().map(|p| mk_pos(*p)).collect();
+        b.info = infos
+            .iter()
+            .enumerate()
+            .map(|(k, i)| {
+                let mut g = hb_glyph_info_t::default();
+                g.glyph_id = i.0;
+                g.mask = i.1;
+                g.cluster = k as u32;
+                g.set_glyph_props(i.2);
+                g.set_unicode_props(i.3);
+                g
+            })
+            .collect();
+        b.len = len;
+        b.have_positions = true;
+        b
+    }
+
+    /// The private `machine_kern` with a kerning function given as a pair list (first match wins, else 0).
+    /// Returns (positions, HAS_GPOS_ATTACHMENT set).
+    pub fn machine_kern_pairs(
+        face: &hb_font_t,
+        infos: &[I],
+        pos: &[P],
+        len: usize,
+        kern_mask: hb_mask_t,
+        cross_stream: bool,
+        direction: Direction,
+        pairs: &[(u32, u32, i32)],
+    ) -> (Vec<P>, bool) {
+        let mut b = mk_buffer(infos, pos, len, direction);
+        machine_kern(face, &mut b, kern_mask, cross_stream, |l, r| {
+            pairs
+                .iter()
+                .find(|p| p.0 == l && p.1 == r)
+                .map(|p| p.2)
+                .unwrap_or(0)
+        });
+        let has = b.scratch_flags & HB_BUFFER_SCRATCH_FLAG_HAS_GPOS_ATTACHMENT != 0;
+        (b.pos.iter().map(rd_pos).collect(), has)
+    }
+
+    /// (kern_mask, requested_kerning, apply_kern, apply_gpos, apply_fallback_kern) of a compiled plan.
+    pub fn plan_kern(plan: &hb_ot_shape_plan_t) -> (hb_mask_t, bool, bool, bool, bool) {
+        (
+            plan.kern_mask,
+            plan.requested_kerning,
+            plan.apply_kern,
+            plan.apply_gpos,
+            plan.apply_fallback_kern,
+        )
+    }
+
+    /// `hb_ot_layout_kern` (the subtable driver) on a bare buffer; the subtables are the face's own
+    /// `kern` table. Returns (glyph ids in buffer order, positions, HAS_GPOS_ATTACHMENT set).
+    pub fn kern_driver(
+        plan: &hb_ot_shape_plan_t,
+        face: &hb_font_t,
+        infos: &[I],
+        pos: &[P],
+        len: usize,
+        direction: Direction,
+    ) -> (Vec<u32>, Vec<P>, bool) {
+        let mut b = mk_buffer(infos, pos, len, direction);
+        hb_ot_layout_kern(plan, face, &mut b);
+        let has = b.scratch_flags & HB_BUFFER_SCRATCH_FLAG_HAS_GPOS_ATTACHMENT != 0;
+        (
+            b.info.iter().map(|i| i.glyph_id).collect(),
+            b.pos.iter().map(rd_pos).collect(),
+            has,
+        )
+    }
+
+    /// `glyphs_kerning(left, right).map(i32::from).unwrap_or(0)` of the n-th subtable of the face's `kern`.
+    pub fn subtable_kerning(face: &hb_font_t, n: usize, left: u16, right: u16) -> Option<i32> {
+        let sub = face.tables().kern?.subtables.into_iter().nth(n)?;
+        Some(
+            sub.glyphs_kerning(GlyphId(left), GlyphId(right))
+                .map(i32::from)
+                .unwrap_or(0),
+        )
+    }
 }
